@@ -923,6 +923,73 @@ pub fn build_owner_drop(name: &'static str) -> Scenario<Arc<Owner>> {
     }
 }
 
+// ---------------------------------------------------------------------------------------------
+// C18: iterator add / drop (its own table lock, then the registry's locks) against registry calls on
+// another thread, with a rejected (panicking) add_signal in between.
+
+pub fn build_iter_live(name: &'static str) -> Scenario<Arc<Owner>> {
+    let setup = || {
+        fresh_registry(&[(S1, Disp::Ignore), (S2, Disp::Ignore)]);
+        let s = signal_hook::iterator::Signals::new(&[S1]).expect("new");
+        let h = s.handle();
+        Arc::new(Owner { inst: Mutex::new(Some(s)), handle: Mutex::new(Some(h)) })
+    };
+    let a = ThreadSpec {
+        name: "A",
+        body: Box::new(|s: &Arc<Owner>| {
+            let h = s.handle.lock().unwrap().take().unwrap();
+            // a rejected addition (documented panic) must not wedge what follows
+            let r = std::panic::catch_unwind(std::panic::AssertUnwindSafe(|| h.add_signal(libc::SIGKILL)));
+            sched::log("rejected_add", r.is_err() as u64, 0);
+            h.add_signal(S2).expect("add_signal");
+            sched::log("add_ret", S2 as u64, 0);
+            let i = s.inst.lock().unwrap().take();
+            drop(i);
+            drop(h);
+            sched::log("drop_ret", 0, 0);
+        }),
+        nest_signals: vec![S1],
+        max_nest: 1,
+    };
+    let b = ThreadSpec {
+        name: "B",
+        body: Box::new(|_s: &Arc<Owner>| {
+            let id = unsafe { reg::register(S2, || ()) }.expect("register");
+            reg::unregister(id);
+            #[allow(deprecated)]
+            reg::unregister_signal(S1);
+        }),
+        nest_signals: vec![],
+        max_nest: 0,
+    };
+    let d = ThreadSpec {
+        name: "D",
+        body: Box::new(|_s: &Arc<Owner>| {
+            sched::raise(S1);
+            sched::raise(S2);
+        }),
+        nest_signals: vec![],
+        max_nest: 0,
+    };
+    Scenario {
+        name: name.to_string(),
+        opts: Opts { stale_reads: false, stale_depth: 2, max_spurious: 0, horizon: 20_000, log_ops: false, log_handler_ops: false, reduce: true, no_discipline: false, nest_value_t1: 0, post_points: false },
+        signals: vec![S1, S2],
+        setup: Box::new(setup),
+        threads: vec![a, b, d],
+        finish: Box::new(|_s, e| {
+            if !e.panics.is_empty() {
+                return Err(format!("C18: a mutator panicked (a rejected addition wedged a later call?): {:?}", e.panics));
+            }
+            if !e.log.iter().any(|x| x.tag == "rejected_add" && x.a == 1) {
+                return Err("C14: add_signal(SIGKILL) did not panic".into());
+            }
+            Ok(e.log.iter().filter(|x| x.tag == "wake").count() as u64)
+        }),
+        monitor: None,
+    }
+}
+
 fn rp(name: &'static str, prop: &'static str) -> RP {
     RP {
         name,
@@ -1039,6 +1106,7 @@ pub fn scenarios(prop: &str, tier: Tier) -> Vec<Item> {
             p.mutators = vec![vec![UnregSig(S1), Reg(S1, 2)], vec![Reg(S2, 5), UnregSig(S2)]];
             p.deliverers = vec![vec![S1]];
             v.push(item(build_reg(p), b(2, 3), "unregister_signal on one thread vs a first registration of another signal on another (both half-locks' writer mutexes in play)"));
+            v.push(item(build_iter_live("live_iterator_add_drop_vs_register"), b(2, 3), "iterator add_signal (after a rejected, panicking one) and drop on one thread vs register/unregister/unregister_signal on another + deliveries + nested arrival"));
             let mut p = rp("live_same_signal", "C18");
             p.mutators = vec![vec![Reg(S1, 1), UnregSig(S1)], vec![Reg(S1, 5), Unreg(5)]];
             p.deliverers = vec![vec![S1], vec![S1]];
